@@ -523,28 +523,27 @@ func ZZ_C26_History() {
 	steps := rt.Bound("steps")
 	w := zzNewC26(3)
 	m := &zzModel{}
-	// initial state, built with the real RPC handlers: each client generates one hostname; A's is additionally bound as a
-	// custom hostname and published on server 0.
-	var generated [2]string
-	for i, c := range []*zzClient{w.a, w.b} {
-		resp, err := w.srv.GenerateHostname(c.ctx(), &protocol.GenerateHostnameRequest{})
-		rt.Assert(err == nil, "generate-succeeds")
-		if err != nil {
-			return
-		}
-		generated[i] = resp.GetHostname()
-		rt.Assert(w.kv.hasChild(c.prefix(), generated[i]), "generated-hostname-is-registered-to-the-caller")
+	// initial state: each client has one hostname registered (arbitrary bytes; the two may coincide, which custom hostnames
+	// validated by two clients can), A's is also bound as a custom hostname. Hostnames drawn later by GenerateHostname come
+	// from the engine's stand-in for the word generator and differ in a native replay, so nothing here depends on them.
+	hostlen := rt.Bound("hostlen")
+	generated := [2]string{string(rt.BytesN("hostname-a", hostlen)), string(rt.BytesN("hostname-b", hostlen))}
+	if rt.Bound("shared") == 0 {
+		rt.Assume(!rt.EqString(generated[0], generated[1])) // quick tier: the two clients' hostnames differ
 	}
-	// two clients drawing the same five words is not considered (and cannot be replayed against the real generator)
-	rt.Assume(!rt.EqString(generated[0], generated[1]))
+	w.kv.seedChild(w.a.prefix(), generated[0])
+	w.kv.seedChild(w.b.prefix(), generated[1])
 	ia, ib := m.index(generated[0]), m.index(generated[1])
 	m.owners[ia][0] = true
 	m.owners[ib][1] = true
+	if ia == ib {
+		rt.Reach("shared-hostname")
+	}
 	val, _ := (&protocol.CustomHostname{ClientIdentity: w.a.ident, ClientToken: w.a.tok()}).MarshalVT()
 	w.kv.seed(tun.CustomHostnameKey(generated[0]), val)
 	m.custom[ia] = w.a
-	never := "zz-never-registered"
-	m.index(never)
+	third := "zz-never-registered" // until a generate step happens: then the name it drew
+	m.index(third)
 	w.compare(m)
 
 	for s := 0; s < steps; s++ {
@@ -553,9 +552,10 @@ func ZZ_C26_History() {
 			c = w.b
 		}
 		ci := w.clientIndex(c)
-		op := rt.Choose("op", zzHKinds)
-		if s < rt.Bound("warmup") {
-			op = zzHPublish // thorough tier: the history starts with publish attempts, so that later steps find routes
+		warm := s < rt.Bound("warmup")
+		op := zzHPublish // thorough tier: the history starts with a publish by an owner, so that later steps find routes
+		if !warm {
+			op = rt.Choose("op", zzHKinds)
 		}
 		if op == zzHGenerate {
 			resp, err := w.srv.GenerateHostname(c.ctx(), &protocol.GenerateHostnameRequest{})
@@ -568,14 +568,18 @@ func ZZ_C26_History() {
 			}
 			ni := m.index(name)
 			m.owners[ni][ci] = true
+			third = name
 			rt.Assert(w.kv.hasChild(c.prefix(), name), "generated-hostname-is-registered-to-the-caller")
 			w.compare(m)
 			rt.Reach("generated")
 			continue
 		}
-		// hostname: own generated one, the other client's, or one nobody registered
-		hi := rt.Choose("hostname", 3)
-		name := []string{generated[0], generated[1], never}[hi]
+		// hostname: A's, B's, or the third one (drawn by an earlier generate step, else registered to nobody)
+		hi := ci
+		if !warm {
+			hi = rt.Choose("hostname", 3)
+		}
+		name := []string{generated[0], generated[1], third}[hi]
 		mi := m.index(name)
 		isOwner := m.owners[mi][ci]
 		var err error
@@ -614,7 +618,7 @@ func ZZ_C26_History() {
 		}
 		if !isOwner {
 			rt.Assert(zzCode(err) == twirp.PermissionDenied, "foreign-or-unregistered-hostname-is-permission-denied")
-			if hi == 2 {
+			if !m.owners[mi][1-ci] {
 				rt.Reach("refused-unregistered")
 			} else {
 				rt.Reach("refused-foreign")
